@@ -34,6 +34,9 @@ chk("C06", E1, "exploration",
 chk("C11", E1, "fault_enumeration",
     "Crash points and single lost messages are enumerated on the canonical schedule for 8 base sessions (scripted, BLS and PS key generation, scripted signing; loud and silent): for every peer P and every k, P goes silent after its k-th outgoing message (k=0: never shows up), and every single message is withheld in turn; further runs draw crash point / withheld message / cancellation step / unusable stored data with a never-expiring context under seeded schedules (n=2..4, thorough ..5). Oracle: every live call returns (error or success) no later than its deadline / cancellation + 1 s of simulated time, no panic anywhere in the process for a further 5 simulated minutes (background goroutines included; a dying worker process is captured and replayed).",
     "deterministic simulation with enumerated crash points / withheld messages + seeded fault injection; return-by-deadline oracle on the simulated clock", "DESIGN.md §4 C11")
+chk("C12", E1, "exploration",
+    "Seeded histories of 2..6 phases over 1..3 topics on n=2..4 (thorough ..5) real Schemes with a scripted backend: successful, peer-missing, cancelled, overlapping same-topic and concurrent different-topic Sign, successful and peer-missing KeyGen, retries on the topic of an earlier failure; outsiders re-send copies of session traffic; the network is drained between phases and a seeded schedule runs inside each. Oracle: retries are admitted and succeed, overlapping same-topic call is refused without disturbing the first, concurrent topics both succeed with consistent outputs, every hand-off stems from an instance of the same phase and topic, from a participant, before the owning call returned. One known finding (silent-mode topic re-use) is listed in known_findings.jsonl.",
+    "deterministic simulation over generated call histories, history oracle attributing every hand-off to its emitting session", "DESIGN.md §4 C12")
 chk("C13", E1, "exploration",
     "Runs 0..454 enumerate all pairs and triples of 14 boundary identifiers (byte boundaries, 0, 0xFFFF); further runs sample the 16-bit range. Each case is a fault-free session (sync + KeyGen and/or Sign, scripted backend with rounds 0..127, or BLS with serialisation round trip and sign/verify) run twice under the same seed: with the drawn ids and with the order-isomorphic ids 1..n; outcome, hand-off counts and totality must agree.",
     "deterministic simulation, differential twin run (large ids vs order-isomorphic small ids)", "DESIGN.md §4 C13")
